@@ -723,7 +723,10 @@ DISPENSO_INLINE void ThreadPool::scheduleImplPlaced(
     int32_t sleeping = ws->totalSleeping();
     if (sleeping > 0 &&
         numNotWorking_.load(std::memory_order_relaxed) - sleeping < kSpinnerWakeThreshold) {
-      int32_t wokeThread = ws->claimAndWakeOne();
+      // Claim the sleeper first, publish the task, and only then wake it.  Waking before the push
+      // lets the thread run its whole work search, find nothing and park again before the task is
+      // visible; nobody wakes it a second time, so the task sat until the sleep backstop.
+      int32_t wokeThread = ws->claimOne();
       DISPENSO_VERIF_POINT(::dispenso::verif::kPoolPlacedAfterClaim);
       if (wokeThread >= 0) {
         size_t stealIdx = static_cast<size_t>(wokeThread) / stealRingSharing_;
@@ -733,8 +736,13 @@ DISPENSO_INLINE void ThreadPool::scheduleImplPlaced(
           if (stealIdx < kMaxStealRings) {
             stealRingsWithWork_.fetch_or(uint64_t{1} << stealIdx, std::memory_order_release);
           }
+          ws->wakeClaimed(wokeThread);
           return;
         }
+        // Steal ring full or gone: hand the task to the central queue, then wake the claimed thread.
+        enqueueToCentralQueue(std::move(task), token);
+        ws->wakeClaimed(wokeThread);
+        return;
       }
     }
   }
